@@ -34,12 +34,15 @@ def _digests(prop, part, n, vseed, twice=True):
             # and must survive the codec unchanged
             if kernel.dumps(kernel.loads(kernel.dumps(script))) != kernel.dumps(script):
                 bad.append((prop, part["engine"], part.get("mode", ""), idx, "codec round trip differs"))
-            d = runner.execute(script, env, prop).digest()
+            r1 = runner.execute(script, env, prop)
+            d = r1.digest()
             if twice:
-                d2 = runner.execute(kernel.loads(kernel.dumps(script)), env, prop).digest()
-                if d2 != d:
+                r2 = runner.execute(kernel.loads(kernel.dumps(script)), env, prop)
+                # an inconclusive pool run (real dispatch did not follow the model within the watchdog, e.g. on an
+                # overloaded machine) is timing dependent by nature and is not compared
+                if r2.digest() != d and not (r1.inconclusive or r2.inconclusive):
                     bad.append((prop, part["engine"], part.get("mode", ""), idx, "second execution differs"))
-            out.append(d)
+            out.append("inconclusive" if r1.inconclusive else d)
     finally:
         shutil.rmtree(session, ignore_errors=True)
     return out, bad
@@ -84,15 +87,16 @@ def determinism(n, plist, vseed):
             continue
         other = json.loads(line[0][8:])
         for k in mine:
-            if other.get(k) != mine[k]:
+            diff = [i for i, (a, b) in enumerate(zip(mine[k], other.get(k, []))) if a != b and "inconclusive" not in (a, b)]
+            if diff or len(other.get(k, [])) != len(mine[k]):
                 ok = False
-                diff = [i for i, (a, b) in enumerate(zip(mine[k], other.get(k, []))) if a != b]
                 print("NONDETERMINISTIC %s under PYTHONHASHSEED=%s at indices %r" % (k, hs, diff[:10]))
         print("fresh interpreter PYTHONHASHSEED=%s: %s" % (hs, "ok" if ok else "FAILED"))
     # forked runner at two worker counts
     for prop in plist:
         for pi, part in enumerate(props.SPECS[prop]["parts"]):
             got = []
+            inc = []
             for jobs in (3, 16):
                 session = runner.session_dir()
                 try:
@@ -100,6 +104,9 @@ def determinism(n, plist, vseed):
                 finally:
                     shutil.rmtree(session, ignore_errors=True)
                 got.append(sorted(M["digests"]))
+                inc.append(M["inconclusive"])
+            if "inconclusive" in mine["%s/%d" % (prop, pi)] or any(M_inc for M_inc in inc):
+                continue
             want = sorted(int(d[:16], 16) for d in mine["%s/%d" % (prop, pi)])
             if got[0] != got[1] or got[0] != want:
                 ok = False
